@@ -45,6 +45,18 @@ for p in pipelines or [None]:
         res = ["RAISED", type(e).__name__, str(e)]
     outs.append({"queries": res, "errors": [[r.title, type(e).__name__, str(e)] for r, e in b.errors]})
 sections["conversions"] = outs
+# 3a. a backend class without regular-expression escaping (empty re_escape, escape character not escaped)
+BareRe = type("BareRe", (TextQueryTestBackend,), {"re_escape": (), "re_escape_escape_char": False})
+outs_b = []
+for p in (pipelines or [None])[:1]:
+    c = SigmaCollection.from_dicts(json.loads(json.dumps(corpus["docs"])), collect_errors=True)
+    b = BareRe(p, collect_errors=True)
+    try:
+        res = b.convert(c)
+    except Exception as e:  # noqa
+        res = ["RAISED", type(e).__name__, str(e)]
+    outs_b.append({"queries": res, "errors": [[r.title, type(e).__name__, str(e)] for r, e in b.errors]})
+sections["conversions_backend_without_regex_escaping"] = outs_b
 # 3b. the same with the verification backend (in-expressions, not-equals, correlation templates with
 # typing / fields / normalisation expressions: code paths the stock test backend leaves unset)
 sys.path.insert(0, sys.argv[4]) if len(sys.argv) > 4 else None
